@@ -1,7 +1,7 @@
 INIT Init
 NEXT Next
 CONSTANTS
-  MaxContigs = 6
+  MaxContigs = 7
   MaxN = 1
   MaxStar = 1
   Modes = {"single", "multi"}
@@ -10,4 +10,5 @@ INVARIANT Inv_C05_Cover
 INVARIANT Inv_C05_Multiset
 INVARIANT Inv_C05_Sorted
 INVARIANT Inv_PartsNonEmpty
+INVARIANT Inv_PlanIsDesignPlan
 CHECK_DEADLOCK FALSE
